@@ -44,6 +44,13 @@ Definition rval_eqb (a b : rval) : bool :=
 Definition incl_str (a b : list string) : bool := forallb (fun x => mem_str x b) a.
 Definition same_set_str (a b : list string) : bool := incl_str a b && incl_str b a.
 
+Fixpoint list_eqb_str (a b : list string) : bool :=
+  match a, b with
+  | [], [] => true
+  | x :: a', y :: b' => String.eqb x y && list_eqb_str a' b'
+  | _, _ => false
+  end.
+
 Fixpoint paths_eqb (a b : list path) : bool :=
   match a, b with
   | [], [] => true
@@ -56,7 +63,8 @@ Fixpoint paths_eqb (a b : list path) : bool :=
     defined one), child spaces, direct bases (ordered), bases (ordered), dir() *)
 Definition obs_space : Type :=
   path * list (string * bool * option fml) * list (string * bool * option rval)
-  * list string * list path * list path * list string.
+  * list string * list path * list path * list string
+  * option (list string) * option (list string).   (* parameters; dir(space[0,...]) when there are some *)
 
 Definition obs : Type := list obs_space * list (string * rval).
 
@@ -90,8 +98,17 @@ Definition check_refs (st : state) (p : path) (l : list (string * bool * option 
 
 Definition check_space (st : state) (o : obs_space) : bool :=
   match o with
-  | (p, cells, refs, children, direct, bases, dir) =>
+  | (p, cells, refs, children, direct, bases, dir, params, idir) =>
       has_space st p
+      && match get_space st p with
+         | Some s => match s_params s, params with
+                     | Some a, Some b => list_eqb_str a b
+                     | None, None => true
+                     | _, _ => false
+                     end
+         | None => false
+         end
+      && match idir with Some d => same_set_str d (item_dir_names st p) | None => true end
       && check_cells st p cells && check_refs st p refs
       && same_set_str children (child_names st p)
       && paths_eqb direct (bases_at st p)
